@@ -1939,7 +1939,17 @@ func cmpHolds(op token.Token, x, y int64) bool {
 // order), reports whether the edge is taken for subject == n. relevant is
 // false when the condition is not such a comparison.
 func constCmpAdmits(ce ctrlEdge, subject func(ssa.Value) bool, n int64) (relevant, admits bool) {
-	b, ok := ce.If.Cond.(*ssa.BinOp)
+	cond := ce.If.Cond
+	taken := ce.Taken
+	for {
+		u, isU := cond.(*ssa.UnOp)
+		if !isU || u.Op != token.NOT {
+			break
+		}
+		cond, taken = u.X, !taken
+	}
+	ce.Taken = taken
+	b, ok := cond.(*ssa.BinOp)
 	if !ok {
 		return false, false
 	}
@@ -3207,6 +3217,17 @@ func decide(b *ssa.BasicBlock, leaf func(ssa.Value) (bool, bool)) (*ssa.BasicBlo
 	for steps := 0; steps < 64; steps++ {
 		iff, ok := b.Instrs[len(b.Instrs)-1].(*ssa.If)
 		if !ok {
+			// the arm of a short-circuit operator used as a value (`case a && b:`): a pure block that
+			// jumps to a block holding only the merge phi and the branch on it
+			if _, isJ := b.Instrs[len(b.Instrs)-1].(*ssa.Jump); isJ && len(b.Succs) == 1 && (b == prev || pureCondBlock(b)) {
+				nb := b.Succs[0]
+				if nif, isIf := nb.Instrs[len(nb.Instrs)-1].(*ssa.If); isIf && !nb.Dominates(start) {
+					if ph, isPhi := nif.Cond.(*ssa.Phi); isPhi && ph.Block() == nb && onlyPhisBefore(nb) {
+						prev, b = b, nb
+						continue
+					}
+				}
+			}
 			return b, true
 		}
 		// going round a loop (a block that dominates the starting point) is an outcome
@@ -3249,6 +3270,32 @@ func decide(b *ssa.BasicBlock, leaf func(ssa.Value) (bool, bool)) (*ssa.BasicBlo
 		}
 	}
 	return nil, false
+}
+
+func onlyPhisBefore(b *ssa.BasicBlock) bool {
+	for _, in := range b.Instrs[:len(b.Instrs)-1] {
+		switch in.(type) {
+		case *ssa.Phi, *ssa.DebugRef:
+		default:
+			return false
+		}
+	}
+	return true
+}
+
+func pureCondBlock(b *ssa.BasicBlock) bool {
+	for _, in := range b.Instrs[:len(b.Instrs)-1] {
+		switch x := in.(type) {
+		case *ssa.Phi, *ssa.BinOp, *ssa.UnOp, *ssa.FieldAddr, *ssa.DebugRef, *ssa.Convert:
+		case *ssa.Call:
+			if bi, isB := x.Call.Value.(*ssa.Builtin); !(isB && bi.Name() == "len") && calleeName(x) != "(*bytes.Buffer).Len" {
+				return false
+			}
+		default:
+			return false
+		}
+	}
+	return true
 }
 
 // natural loops: for every back edge P -> H (H dominates P) the set of blocks
